@@ -1,0 +1,44 @@
+//! Read-only copy of the private dispatch state of a [TrainDisp] (feature `verif-hooks` only).
+use super::super::disp_imports::*;
+use super::TrainDisp;
+
+#[derive(Debug, Clone, PartialEq)]
+pub struct TrainDispView {
+    pub train_id: String,
+    pub train_idx: TrainIdx,
+    pub disp_path: Vec<DispNode>,
+    pub link_idxs_blocking: Vec<LinkIdx>,
+    pub time_update: si::Time,
+    pub time_update_next: si::Time,
+    pub time_spacing: si::Time,
+    pub disp_node_idx_fixed: DispNodeIdx,
+    pub disp_node_idx_free: DispNodeIdx,
+    pub disp_node_idx_front: DispNodeIdx,
+    pub disp_node_idx_back: DispNodeIdx,
+    pub offset_fixed: si::Length,
+    pub offset_free: si::Length,
+    pub is_blocked: bool,
+    pub is_finished: bool,
+}
+
+impl TrainDisp {
+    pub fn verif_view(&self) -> TrainDispView {
+        TrainDispView {
+            train_id: self.train_id.clone(),
+            train_idx: self.train_idx,
+            disp_path: self.disp_path.clone(),
+            link_idxs_blocking: self.link_idxs_blocking.clone(),
+            time_update: self.time_update,
+            time_update_next: self.time_update_next,
+            time_spacing: self.time_spacing,
+            disp_node_idx_fixed: self.disp_node_idx_fixed,
+            disp_node_idx_free: self.disp_node_idx_free,
+            disp_node_idx_front: self.disp_node_idx_front,
+            disp_node_idx_back: self.disp_node_idx_back,
+            offset_fixed: self.offset_fixed,
+            offset_free: self.offset_free,
+            is_blocked: self.is_blocked,
+            is_finished: self.is_finished(),
+        }
+    }
+}
